@@ -20,9 +20,10 @@ HR = re.compile(r"^ {0,3}([-*_])([ \t]*\1){2,}[ \t]*$")
 MARKERS = ["- ", "*  ", "+   ", "-    ", "1. ", "7) ", "12.  "]
 WRAPPERS = ["Q"] + MARKERS
 PREF = ["", "> ", "- ", "  ", "    ", "1. "]
-LEAF = ["", "a", "# a", "---", "===", "- a", "-", "> a", ">", "```", "[a]: /u", "<div>", "`a", "b`", " "]
+LEAF = ["", "a", "# a", "---", "===", "- a", "-", "> a", ">", "```", "[a]: /u", "<div>", "`a", "b`", " ",
+        "[b]: /v 't", "u'", "<!-- x", "y -->", "<pre>"]
 PREF3 = ["", "> ", "- ", "  "]
-LEAF3 = ["", "a", "# a", "---", "- a", "> a", "```", "[a]: /u", "`a", "b`"]
+LEAF3 = ["", "a", "# a", "---", "- a", "> a", "```", "[a]: /u", "`a", "b`", "[b]: /v 't", "u'", "<!-- x", "y -->"]
 
 CM = C.cfg("commonmark")
 CMT = C.cfg("commonmark", enable=["table"])
@@ -40,18 +41,22 @@ def wrap(X, w):
     return "".join((w if i == 0 else " " * W) + l + "\n" for i, l in enumerate(ls))
 
 
-def _norm_children(children):
+def _norm_children(children, lazy_titles=True):
     out = []
     for c in children or []:
         d = c.as_dict(children=False)
         if c.type == "code_inline":
             d["content"] = re.sub(r" +", " ", d["content"]).strip(" ")
-        d["children"] = _norm_children(c.children) if c.children else c.children
+        if lazy_titles and c.type in ("link_open", "image") and d.get("attrs"):
+            # a title that comes from a definition continued on a lazy line (see env_loose)
+            d["attrs"] = [[k, "\n".join(l.lstrip(" ") for l in v.split("\n")) if k == "title" and isinstance(v, str) else v]
+                          for k, v in d["attrs"]]
+        d["children"] = _norm_children(c.children, lazy_titles) if c.children else c.children
         out.append(d)
     return out
 
 
-def sig_loose(tokens, dl):
+def sig_loose(tokens, dl, lazy_titles=True):
     out = []
     for t in tokens:
         d = t.as_dict(children=False)
@@ -59,7 +64,7 @@ def sig_loose(tokens, dl):
         d.pop("hidden")
         if t.type == "inline":
             d["content"] = "\n".join(l.lstrip(" ") for l in d["content"].split("\n"))
-            d["children"] = _norm_children(t.children)
+            d["children"] = _norm_children(t.children, lazy_titles)
         out.append(d)
     return out
 
@@ -70,6 +75,20 @@ def sig_strict(tokens, dl):
         d = t.as_dict()
         d["level"] -= dl
         out.append(d)
+    return out
+
+
+def env_loose(env):
+    """reference definitions modulo leading blanks of the title's continuation lines (a title continued on a lazy
+    line keeps that line's list indentation, exactly like paragraph text does)"""
+    out = {}
+    for k, v in env.items():
+        if k == "references":
+            out[k] = {lab: {**d, "title": "\n".join(l.lstrip(" ") for l in d.get("title", "").split("\n"))} for lab, d in v.items()}
+        elif k == "duplicate_refs":
+            out[k] = [{**d, "title": "\n".join(l.lstrip(" ") for l in d.get("title", "").split("\n"))} for d in v]
+        else:
+            out[k] = v
     return out
 
 
@@ -97,9 +116,12 @@ def law(md, X, BX, envX, w, allow_table_list, acc):
           and sum(1 for t in T if t.level == 0) == 2 and sum(1 for t in T if t.level == 1) == 2)
     if not ok:
         return f"L(X) is not a one-item list", T, e1, Y
-    if sig_loose(T[2:-2], 2) != sig_loose(BX, 0):
+    # lazy continuation lines exist only inside containers of X itself: only then may a definition's title keep
+    # the indentation the wrapper added
+    lazy = any(t.type in ("blockquote_open", "list_item_open") for t in BX)
+    if sig_loose(T[2:-2], 2, lazy) != sig_loose(BX, 0, lazy):
         return f"L(X): item contents differ from the blocks of X", T, e1, Y
-    if e1 != envX:
+    if e1 != envX and (not lazy or env_loose(e1) != env_loose(envX)):
         return f"L(X): env (reference definitions) differs", T, e1, Y
     return None, T, e1, Y
 
